@@ -111,11 +111,14 @@ func (in *Interp) harnessIntrinsic(g *Goroutine, name string, c *callCtx) (Value
 			// in canary runs, canary assertions are expected to fail
 		}
 		if !in.checkObligation(cond, label, "assert", "assertion "+label+" can fail") {
-			// continue under the assumption that it held, if feasible
+			// continue under the assumption that it held, if feasible; if it always fails here
+			// keep going without the assumption so that later assertions (possibly belonging to
+			// another property) are still evaluated on this path
 			r := in.solver.Check(cond)
 			in.solver.Done()
 			if r == "unsat" {
-				in.abort("violation", "assertion "+label+" always fails here")
+				in.res.Outcome = "violation"
+				return nil, irDone
 			}
 		}
 		in.addPC(cond)
